@@ -20,6 +20,8 @@ fn titlecase_word(word: &str) -> String {
 }
 
 fn main() {
+    // verification-only cfg (see src/tls_records_parser.rs); declared so that rustc does not warn about it
+    println!("cargo:rustc-check-cfg=cfg(tls_parser_verif)");
     let path_txt =
         Path::new(&env::var("CARGO_MANIFEST_DIR").unwrap()).join("scripts/tls-ciphersuites.txt");
     let display = path_txt.display();
